@@ -226,3 +226,52 @@ def apalache_lemmas(ctx, lemmas, modules=('MC_GVSym_5x5',), timeout=900, link=Tr
                 raise RuntimeError(res.raw[-2000:])
             ctx.add_tlc(res, f'MC_SymLink {h}x{w}: GVSym!Next commutes with Step(key-door composition) under flattening')
     return report
+
+
+def mc_reach(ctx, invariants):
+    """complete reachable graphs of small configurations from all initial states (MC_Reach) with history invariants"""
+    from harness.tlc import run_many, write_cfg
+    C = steps.C
+    basic = [C('move_agent'), C('turn_agent')]
+    term_exit = C('reach_exit')
+    term_obst = C('reduce_any', terminating_functions=[C('reach_exit'), C('bump_moving_obstacle'), C('bump_into_wall')])
+    allc = ['RED', 'GREEN', 'BLUE', 'YELLOW']
+    cfgs = [
+        ('empty', {'shape': [4, 4], 'random_agent': True, 'random_exit': False}, basic, term_exit),
+        ('keydoor', {'shape': [5, 5]}, steps.COMPOSITIONS['keydoor'], term_exit),
+        ('keydoor', {'shape': [4, 6]}, steps.COMPOSITIONS['keydoor'], term_exit),
+        ('crossing', {'shape': [5, 5], 'num_rivers': 1, 'object_type': 'Wall'}, basic, term_exit),
+        ('teleport', {'shape': [5, 5]}, steps.COMPOSITIONS['teleport'], term_exit),
+        ('dynamic_obstacles', {'shape': [5, 5], 'num_obstacles': 1, 'random_agent': False}, steps.COMPOSITIONS['obstacles'], term_obst),
+        ('rooms', {'shape': [5, 5], 'layout': [2, 2]}, basic, term_exit),
+        ('memory', {'shape': [5, 5], 'colors': allc}, basic, term_exit),
+    ]
+    if not ctx.quick:
+        cfgs += [
+            ('keydoor', {'shape': [6, 6]}, steps.COMPOSITIONS['keydoor'], term_exit),
+            ('keydoor', {'shape': [5, 7]}, steps.COMPOSITIONS['keydoor'], term_exit),
+            ('rooms', {'shape': [7, 7], 'layout': [2, 2]}, basic, term_exit),
+            ('crossing', {'shape': [7, 7], 'num_rivers': 2, 'object_type': 'Wall'}, basic, term_exit),
+            ('dynamic_obstacles', {'shape': [5, 5], 'num_obstacles': 2, 'random_agent': True}, steps.COMPOSITIONS['obstacles'], term_obst),
+            ('teleport', {'shape': [6, 6]}, steps.COMPOSITIONS['teleport'], term_exit),
+            ('memory_rooms', {'shape': [5, 5], 'layout': [2, 2], 'colors': allc, 'num_beacons': 1, 'num_exits': 2}, basic, term_exit),
+        ]
+    cfg = write_cfg(os.path.join(ctx.work, 'MC_Reach.cfg'), invariants=invariants)
+    jobs = []
+    for k, (f, p, comps, term) in enumerate(cfgs):
+        pf = os.path.join(ctx.work, f'reach_{k}.json')
+        with open(pf, 'w') as fh:
+            json.dump({'f': f, 'p': p, 'comps': comps, 'term': term, 'types': steps.FAMILY_TYPES, 'colors': steps.ALL_COLORS}, fh)
+        jobs.append(dict(module='MC_Reach', cfg=cfg, env={'PARAM_FILE': pf}, workers=4, timeout=3000, check=False, heap='6g'))
+    total = 0
+    for (f, p, comps, term), res in zip(cfgs, run_many(jobs, parallel=4)):
+        label = f'{f}{json.dumps(p)}'
+        if res.violated:
+            ctx.violation(f'history invariant {res.violated} fails in the reachable graph of {label} (specification-level)',
+                          {'kind': 'model', 'module': 'MC_Reach', 'invariant': res.violated, 'config': label, 'tail': res.raw[-2500:]})
+        elif res.rc != 0:
+            raise RuntimeError(f'MC_Reach failed on {label}:\n' + res.raw[-2500:])
+        ctx.add_tlc(res, f'MC_Reach {label} invariants={invariants}')
+        total += res.distinct
+    ctx.log(f'MC_Reach: {len(cfgs)} complete reachable graphs, {total} states')
+    return total
